@@ -263,6 +263,8 @@ def run(rep, tier):
         nls += c04.loop_save_rule(rep, us[s_.label], own)
         c04.block_step_rule(rep, us[s_.label], own)
         c04.bulk_advance_rule(rep, us[s_.label], own)
+        c04.update_coverage(rep, us[s_.label], h, hashes.HASHES[h])
+        c04.dispatch_rule(rep, us[s_.label], own)
     rep.floor("per-block state copies", nls, 2)
     u = us["radius.h"]
     nr = 0
